@@ -28,7 +28,10 @@ import jinja2
 import jinja2.lexer as L
 
 NL = z3.StringVal("\n")
-nl_count = models.str_count_fn("\n")  # the uninterpreted `str.count("\n")` of the engine's str model
+# the uninterpreted `str.count("\n")` of the engine's str model.  The engine names it `str.count['\n']`, a symbol cvc5
+# cannot parse (backslash in a quoted symbol); in the processes of the lexer contracts it is created under a clean name.
+models._count_fns.setdefault("\n", z3.Function("str_count_newline", z3.StringSort(), z3.IntSort()))
+nl_count = models.str_count_fn("\n")
 
 
 # ================================================================== locating the real code
@@ -124,7 +127,7 @@ def mstr(model, term):
     return _re.sub(r"\\u\{([0-9a-fA-F]+)\}", lambda m: chr(int(m.group(1), 16)), txt)
 
 
-def check_sat_fresh(formulas, timeout_ms=10000, seed=0):
+def check_sat_fresh(formulas, timeout_ms=10000, seed=0, cvc5_first=False):
     """z3 briefly, then /usr/bin/cvc5 --strings-exp on the formulas AS GENERATED (smt2 text taken before any z3 check),
     then z3 with the full budget.  'sat' is only ever taken from z3 (it carries the model for the witness)."""
     import os
@@ -143,7 +146,8 @@ def check_sat_fresh(formulas, timeout_ms=10000, seed=0):
 
     text = "(set-logic ALL)\n" + mk(1000).to_smt2()
     reason = ""
-    for attempt, budget in enumerate((min(timeout_ms, 1500), None, timeout_ms // 2, timeout_ms)):
+    plan = (min(timeout_ms, 250 if cvc5_first else 1500), None, timeout_ms // 2, timeout_ms)
+    for attempt, budget in enumerate(plan):
         if budget is None:
             if not os.path.exists(CVC5):
                 continue
@@ -174,6 +178,23 @@ def check_sat_fresh(formulas, timeout_ms=10000, seed=0):
             return Result("sat", s.model(), time.time() - t0, "z3")
         reason = s.reason_unknown()
     return Result("unknown", None, time.time() - t0, "z3", reason)
+
+
+def _heavy(f):
+    """does the formula contain a quantifier or a regular-language membership"""
+    seen = set()
+    todo = [f]
+    while todo:
+        e = todo.pop()
+        if e.get_id() in seen:
+            continue
+        seen.add(e.get_id())
+        if z3.is_quantifier(e):
+            return True
+        if z3.is_app(e) and e.decl().kind() == z3.Z3_OP_SEQ_IN_RE:
+            return True
+        todo.extend(e.children())
+    return False
 
 
 class SegmentVC(VC):
@@ -208,8 +229,17 @@ class SegmentVC(VC):
         preprocessed assertion stack, on which cvc5 1.0.3 times out for several of the string VCs here)"""
         if cond is True or cond is False:
             return super().discharge(name, pc, cond, timeout, seed, pre, out)
-        pc = list(pc) + self.proved_lemmas(pc, out, timeout, seed)
-        r = check_sat_fresh(list(pc) + [z3.Not(cond)], timeout, seed)
+        clause = name.rsplit("#", 1)[0]
+        pref = self.__dict__.setdefault("_backend_pref", {})
+        r = check_sat_fresh(list(pc) + [z3.Not(cond)], min(timeout, 4000), seed, cvc5_first=pref.get(clause) == "cvc5")
+        if r.status == "unsat" and r.seconds > 0.5:
+            pref[clause] = r.backend
+        if r.status == "unknown":
+            # helper lemmas (each proved first) are only brought in when the direct attempt is undecided
+            t_first = r.seconds
+            pc = list(pc) + self.proved_lemmas(pc, out, timeout, seed)
+            r = check_sat_fresh(list(pc) + [z3.Not(cond)], timeout, seed)
+            r.seconds += t_first
         if r.status == "unsat":
             return Res(name, "discharged", r.backend, r.seconds, "", self.kind)
         if r.status == "sat":
@@ -228,15 +258,22 @@ class SegmentVC(VC):
         return []
 
     def proved_lemmas(self, pc, out, timeout, seed):
+        """each candidate is tried from no assumptions (tautologies of the term structure), then from the 'light' part of the
+        path condition (no quantifiers / regular-language memberships), then from the whole path condition"""
         if out is None:
             return []
         cache = self.__dict__.setdefault("_lemma_cache", {})
         if out.idx not in cache:
             ok = []
+            light = [f for f in pc if not _heavy(f)]
             for lem in self.lemmas(out):
-                r = check_sat_fresh(list(pc) + ok + [z3.Not(lem)], min(timeout, 5000), seed)
-                if r.status == "unsat":
-                    ok.append(lem)
+                for base, budget in (([], 1500), (light, 2500), (list(pc), min(timeout, 5000))):
+                    r = check_sat_fresh(base + ok + [z3.Not(lem)], budget, seed)
+                    if r.status == "unsat":
+                        ok.append(lem)
+                        break
+                    if r.status == "sat" and base is not light and not base == []:
+                        break
             cache[out.idx] = ok
         return cache[out.idx]
 
@@ -254,6 +291,12 @@ class SegmentVC(VC):
 WS = RF.z3_space()  # the class `\s` / str.isspace / what str.rstrip() strips (table obligation C12.ws.same_class)
 WS_STAR = z3.Star(WS)
 WS_PLUS = z3.Plus(WS)
+
+
+def all_ws(x):
+    """x consists of whitespace characters only (possibly empty); phrased so that it matches both the `\\s+` fact of
+    Pattern.fullmatch and the empty case syntactically"""
+    return z3.Or(x == z3.StringVal(""), z3.InRe(x, WS_PLUS))
 
 
 def is_ws_char(c):
@@ -309,7 +352,7 @@ def install_string_specs(I, patterns=()):
                 z3.PrefixOf(r.t, s), r.t == z3.SubString(s, 0, k), k <= z3.Length(s),
                 z3.ForAll([i], z3.Implies(z3.And(k <= i, i < z3.Length(s)), is_ws_char(char_at(s, i)))),
                 z3.Or(k == 0, z3.Not(is_ws_char(char_at(s, k - 1)))),
-                z3.InRe(suffix_from(s, k), WS_STAR),
+                z3.InRe(suffix_from(s, k), WS_STAR), all_ws(suffix_from(s, k)),
                 s == z3.Concat(r.t, suffix_from(s, k)),
             )
             not_none(st, r)
@@ -563,28 +606,38 @@ MODS = ["", "-", "+"]
 RAW_BODY = "\n r \n "
 
 
-def tag_variants():
+DEFAULT_DELIMS = ("{%", "%}", "{{", "}}", "{#", "#}")
+
+
+def tag_variants(delims=DEFAULT_DELIMS):
     """[(label, [Tag, (text, Tag)...])]: block/comment/raw x left x right modifier, variable x left x {'', '-'}
     (`+}}` is not a delimiter: it lexes as an operator)."""
+    bs, be, vs, ve, cs, ce = delims
     out = []
     for l, r in itertools.product(MODS, MODS):
-        out.append((f"block[{l}|{r}]", [Tag("block", l, r, "{%" + l + " set q = 1 " + r + "%}")]))
-        out.append((f"comment[{l}|{r}]", [Tag("comment", l, r, "{#" + l + " c " + r + "#}")]))
-        out.append((f"raw[{l}|{r}]", [Tag("rawbegin", l, "", "{%" + l + " raw %}"), RAW_BODY, Tag("rawend", "", r, "{% endraw " + r + "%}")]))
+        out.append((f"block[{l}|{r}]", [Tag("block", l, r, bs + l + " set q = 1 " + r + be)]))
+        out.append((f"comment[{l}|{r}]", [Tag("comment", l, r, cs + l + " c " + r + ce)]))
+        out.append((f"raw[{l}|{r}]", [Tag("rawbegin", l, "", bs + l + " raw " + be), RAW_BODY, Tag("rawend", "", r, bs + " endraw " + r + be)]))
         if r != "+":
-            out.append((f"variable[{l}|{r}]", [Tag("variable", l, r, "{{" + l + " v " + r + "}}", "V")]))
+            out.append((f"variable[{l}|{r}]", [Tag("variable", l, r, vs + l + " v " + r + ve, "V")]))
     return out
+
+
+def delims_of(kwargs):
+    e = jinja2.Environment(**kwargs)
+    return (e.block_start_string, e.block_end_string, e.variable_start_string, e.variable_end_string, e.comment_start_string, e.comment_end_string)
 
 
 TAGS = tag_variants()
 SETTINGS = [(t, l) for t in (False, True) for l in (False, True)]
 
 
-def skeleton(tag_idx, sep_idx):
+def skeleton(tag_idx, sep_idx, tags=None):
     """parts list [text, Tag, text, ...] of the skeleton with the given tag variants and separators"""
+    tags = TAGS if tags is None else tags
     parts = [SEPS[sep_idx[0]]]
     for t, s in zip(tag_idx, sep_idx[1:]):
-        parts += TAGS[t][1]
+        parts += tags[t][1]
         parts.append(SEPS[s])
     return parts
 
@@ -719,9 +772,54 @@ def left_spec(text, sign, lstrip, is_var, line_starting, K, o):
     # rule 3: the part after the last line break is removed iff it is non-empty, all whitespace and starts a line
     tail = suffix_from(t, K)
     starts_line = z3.Or(z3.Contains(t, NL), line_starting)
-    removable = z3.And(z3.Length(tail) > 0, z3.InRe(tail, WS_STAR), starts_line)
+    removable = z3.And(z3.Length(tail) > 0, all_ws(tail), starts_line)
     auto = o == z3.If(removable, z3.SubString(t, 0, K), t)
     automatic_applies = z3.And(lstrip, z3.BoolVal(not is_var))
     return z3.If(sign == z3.StringVal("-"), minus,
                  z3.If(sign == z3.StringVal("+"), o == t,  # rule 2: '+' disables the automatic trimming
                        z3.If(automatic_applies, auto, o == t)))  # variable tags / option off: unchanged
+
+
+def family_sample(seed, n2=1500):
+    """skeleton ids used for the non-default delimiter families: all with <= 1 tag plus n2 seeded two-tag skeletons"""
+    rnd = random.Random(f"lex-families-{seed}")
+    ids = list(corpus_ids(0)) + list(corpus_ids(1))
+    for _ in range(n2):
+        ids.append((tuple(rnd.randrange(len(TAGS)) for _ in range(2)), tuple(rnd.randrange(len(SEPS)) for _ in range(3))))
+    return ids
+
+
+FAMILY_BOUND = ("the same skeletons written with the delimiter sets asp (<% %> <%= %> <!-- -->), dollar (<? ?> ${ } <!-- -->) and shared "
+                "({%% %%} {%%= =%%} {%%# #%%}): all with N <= 1 plus 1500 seeded skeletons with N = 2, under the four trim/lstrip settings")
+
+
+def expected_stream(parts, trim_blocks, lstrip_blocks):
+    """C39 oracle on a skeleton (working parts): -> (concatenation of the raw token values, [(stream offset, removed text)])
+    = the working source minus exactly the whitespace the LEFT-hand rules remove (whitespace consumed on the right of a
+    tag stays inside the end-tag token)."""
+    pieces = reference_pieces(parts, trim_blocks, lstrip_blocks)
+    tags = parts[1::2]
+    out, gaps = "", []
+    for i, (kept, removed_left, removed_right) in enumerate(pieces):
+        out += removed_right + kept
+        if removed_left:
+            gaps.append((len(out), removed_left))
+        if i < len(tags):
+            out += tags[i].src
+    return out, gaps
+
+
+def check_token_stream(toks, work, stream, gaps):
+    """-> None or a description: the token values concatenate to `stream` and every token carries 1 + the number of line
+    breaks of the working source `work` before its first character"""
+    got = "".join(v for _, _, v in toks)
+    if got != stream:
+        return f"token values concatenate to {got!r}, expected {stream!r} (working source {work!r})"
+    off = 0
+    for ln, tok, val in toks:
+        start = off + sum(len(g) for p, g in gaps if p <= off)
+        want = 1 + work[:start].count("\n")
+        if ln != want:
+            return f"token {tok}={val!r} starts at offset {start} of the working source {work!r}: lineno {ln}, direct count {want}"
+        off += len(val)
+    return None
